@@ -345,14 +345,29 @@ def shrink_note(files):
     return {n: [list(s) for s in secs] for n, secs in files.items()}
 
 
+def many_elements_case(ctx):
+    """a directed probe with more than 52 elements of every kind, so that the letter counter goes through a..z, A..Z and wraps"""
+    n = 56
+    table = [["StateQ%d" % i, "EventQ%d" % i, "StateQ%d" % ((i + 1) % n), "OnQ%d" % i, "GuardQ%d" % i] for i in range(n)]
+    files = {"probe_many.txt": [("elem", fam, [[["L", "  "], ["T", "ALPH"], ["L", " "], ["T", "NUM"], ["L", " "], ["T", VARIANTS[fam][0]], ["L", ";"]]])
+                               for fam in ("STATE", "EVENT", "ACTION", "GUARD")] +
+                              [("sig", [[["L", "  "], ["T", "ALPH"], ["L", "/"], ["T", "NUM"], ["L", " "], ["T", VARIANTS["ACTION"][0]], ["L", ";"]]])]}
+    return files, table
+
+
 def e2e_cases(ctx, n):
     km = ctx.km
     for i in range(n):
+        directed = None
+        if i == 0:
+            directed = many_elements_case(ctx)
         nfiles = 1 if ctx.rng.random() < 0.7 else 2
         files = {"probe%d.txt" % j: [section(ctx.rng) for _ in range(ctx.rng.randint(1, 5))] for j in range(nfiles)}
         kind = ctx.rng.choice(e2e.KINDS)
         seed = ctx.rng.randint(1, 1 << 30)
-        real, model, exp, table, m = one_case(ctx, km, files, kind, seed)
+        if directed is not None:
+            files = directed[0]
+        real, model, exp, table, m = one_case(ctx, km, files, kind, seed, table=(directed[1] if directed is not None else None))
         ctx.count("e2e_" + kind)
         if isinstance(real, tuple) and isinstance(model, tuple):
             ctx.count("both_raise")
